@@ -25,6 +25,10 @@ static void list_units(const std::string& tier)
         if (!th && st!='e' && U>256) continue;
         printf("mode=univ,kind=%s,shape=%s,pol=%cao\n", k.name().c_str(), sn.c_str(), st);
     }
+    // matrix products: MM_MULTIPLY(a,b) must be the very edge the harness builder makes for the product table
+    // (operands in a quasi-reduced forest - see DESIGN 0.3 on why - result in a forest of each reduction rule)
+    for (const char* rg : {"MTi","MTr"}) for (char rr : {'Q','F','I'})
+        for (const char* sn : {"S1","S2","S3","S4"}) printf("mode=mm,kind=R:%s:Q,res=R:%s:%c,shape=%s,pol=eao\n", rg, rg, rr, sn);
     // E2 part
     std::vector<std::string> hk = {"S:MTb:F","S:MTb:Q","S:MTi:F","S:EVpi:F","R:MTb:I","R:MTb:F","R:MTi:Q","R:EVpi:I"};
     for (auto& k : hk) for (const char* pol : {"eao","eap"}) {
@@ -411,8 +415,89 @@ static void run_hist(const std::map<std::string,std::string>& spec)
     }
 }
 
+// -------------------------------------------------------------------------------------
+// matrix products.  Functions: the whole universe when it has <= 512 members (S1 with the 4-value alphabet, S2 with the
+// two-value one), otherwise the two-value functions with at most two nonzero points plus the identity matrix and the
+// "identity on all but one variable" patterns.  Every ordered pair (a,b): P = MM_MULTIPLY(a,b) must read as the product
+// table computed with plain loops AND be the same edge as the harness builder's edge for that table (C01).
+// -------------------------------------------------------------------------------------
+static void run_mm(const std::map<std::string,std::string>& spec)
+{
+    Kind k = kind_parse(spec_get(spec,"kind"));
+    Shape s = shape_by_name(spec_get(spec,"shape"));
+    Pol pol = pol_parse(spec_get(spec,"pol","eao"));
+    long P = s.relPoints();
+    long N = s.setPoints();
+    std::vector<double> V = alphabet(k);
+    if (std::pow((double)V.size(), (double)P) > 512.0) V = alphabet(k,2);
+    std::vector<Table> fam;
+    if (std::pow((double)V.size(), (double)P) <= 512.0) {
+        unsigned long U = ipow(V.size(), P);
+        for (unsigned long i=0;i<U;i++) fam.push_back(tab_from_index(i,P,V));
+    } else {
+        Table z(P, V[0]);
+        fam.push_back(z);
+        for (long p=0;p<P;p++) { Table t=z; t[p]=V[1]; fam.push_back(t); }
+        for (long p=0;p<P;p++) for (long q=p+1;q<P;q++) { Table t=z; t[p]=V[1]; t[q]=V[1]; fam.push_back(t); }
+        // identity patterns: identity on every variable in mask m, a fixed transition 0->1 / 1->1 on the others
+        int x[16], xp[16];
+        for (int m=1; m<(1<<s.K()); m++) for (int tr=0; tr<2; tr++) {
+            Table t=z;
+            for (long p=0;p<P;p++) {
+                decode_rel(s,p,x,xp); bool in=true;
+                for (int v=1; v<=s.K(); v++) { if (m&(1<<(v-1))) { if (x[v]!=xp[v]) in=false; } else { if (x[v]!=tr || xp[v]!=1) in=false; } }
+                if (in) t[p]=V[1];
+            }
+            fam.push_back(t);
+        }
+    }
+    lib_init();
+    domain* d = make_domain(s);
+    forest* F = make_forest(d, k, pol);
+    if (!F) { lib_done(); return; }
+    Kind rk = kind_parse(spec_get(spec,"res",k.name().c_str()));
+    forest* R = (rk.name()==k.name()) ? F : make_forest(d, rk, pol);
+    if (!R) { lib_done(); return; }
+    binary_operation* mm = nullptr;
+    try { mm = MM_MULTIPLY(F,F,R); } catch (MEDDLY::error e) { mm = nullptr; }
+    if (!mm) { declined("MM_MULTIPLY on %s", k.name().c_str()); domain::destroy(d); lib_done(); return; }
+    Builder B(F,k,s), BR(R,rk,s);
+    std::vector<dd_edge> E(fam.size(), dd_edge(F));
+    for (size_t i=0;i<fam.size();i++) B.build(fam[i], E[i]);
+    dd_edge r(R), exp(R);
+    int x[16], xp[16], y[16];
+    for (size_t a=0;a<fam.size() && !ctx.stop;a++) {
+        if (ctx.only<0 && ctx.upto<0 && ctx.viol>ctx.maxviol) break;
+        for (size_t b=0;b<fam.size();b++) {
+            if (!case_begin("mm kind=%s res=%s shape=%s a=[%s] b=[%s]", k.name().c_str(), rk.name().c_str(), s.name.c_str(), tab_str(fam[a]).c_str(), tab_str(fam[b]).c_str())) continue;
+            Table t(P, 0.0);
+            for (long p=0;p<P;p++) {
+                decode_rel(s,p,x,xp); double acc=0;
+                for (long q=0;q<N;q++) { decode_set(s,q,y); acc += fam[a][encode_rel(s,x,y)] * fam[b][encode_rel(s,y,xp)]; }
+                t[p]=acc;
+            }
+            try {
+                mm->compute(E[a], E[b], r);
+                std::string err = check_edge(r,rk,s,t);
+                if (!err.empty()) { violation("mm-wrong-result", "MM_MULTIPLY: %s", err.c_str()); continue; }
+                BR.build(t, exp);
+                if (r != exp) violation("noncanonical-mm", "MM_MULTIPLY gives edge <%d>, harness builder gave <%d> for the same table [%s]", (int)r.getNode(), (int)exp.getNode(), tab_str(t).c_str());
+                if (!tab_is_const(t)) note_nontrivial(hmix(a,b));
+            } catch (MEDDLY::error e) { violation("error-mm", "MM_MULTIPLY threw %s (%s:%u)", e.getName(), e.getFile(), e.getLine()); }
+        }
+        if ((a & 63) == 63) { std::string au = audit_forest(R,rk); if (!au.empty()) { violation("audit","%s",au.c_str()); break; } }
+    }
+    r.detach(); exp.detach();
+    { std::string au = audit_forest(F,k); if (!au.empty()) { strcpy(ctx.cur,"final audit (mm)"); violation("audit", "%s", au.c_str()); } }
+    if (R!=F) { std::string au = audit_forest(R,rk); if (!au.empty()) { strcpy(ctx.cur,"final audit (mm, result forest)"); violation("audit", "%s", au.c_str()); } }
+    for (size_t i=0;i<fam.size();i++) { Table xr; read_eval(E[i],k,s,xr); if (!tab_eq(k,xr,fam[i])) { snprintf(ctx.cur,sizeof ctx.cur,"re-read mm operand %zu",i); violation("operand-changed","held edge now reads [%s]", tab_str(xr).c_str()); break; } }
+    E.clear();
+    domain::destroy(d);
+    lib_done();
+}
+
 static void run_unit(const std::map<std::string,std::string>& spec)
 {
-    if (spec_get(spec,"mode")=="hist") run_hist(spec); else run_univ(spec);
+    if (spec_get(spec,"mode")=="hist") run_hist(spec); else if (spec_get(spec,"mode")=="mm") run_mm(spec); else run_univ(spec);
 }
 int main(int argc, char** argv) { return std_main(argc, argv, list_units, run_unit); }
